@@ -37,6 +37,18 @@ CLAIMED["C08"] = dict(
     note=TRUST + "; table-driven runs stub only Sensor.canSlew/attemptObservation/predictObservation; job bodies run at submission so only merge order varies",
     engine="resonaate-system")
 
+CLAIMED["C01"] = dict(
+    text=("TLC checks Resonaate.tla exhaustively for event families on a tick lattice (an impulse on every tick of the span - on and "
+          "off step boundaries -, two impulses in one step, agent addition/removal, priority/time-bias/burn intervals, two engines): "
+          "ExactlyOnceInstant, DurationActiveExactly, OnlyAddressee, DvOnce, NeverTwice, BiasActiveExactly; the as-coded deviations "
+          "(D1, D3) yield counterexamples, and Windows.tla shows which repairs suffice for every rounding of the date paths. Real "
+          "scenarios over a sweep of (start instant, step, event time) triples - every aligned time start+j*step, interior times, all "
+          "event kinds, added through the public config and run with propagateTo - are traced (every handler call, every impulse "
+          "application inside the propagation/prediction jobs, membership, DB rows) and validated by TLC against TraceResonaate.tla."),
+    ref="5 C01", technique="TLA+ system spec Resonaate.tla (+ Windows.tla) + TLC exhaustive; trace validation of real scenario executions over the (start, step, event time) lattice",
+    note=TRUST + "; event times mapped to spec ticks by their order relative to step boundaries (integer arithmetic on configured datetimes); duration events end on a boundary or beyond the span",
+    engine="resonaate-system")
+
 NOT_APPLICABLE = {
     "C13": ("an explicit TLA+ specification cannot evaluate a degree-20 spherical-harmonic gradient or analytic ephemerides; "
             "the property IS equality with an independent numerical reference, which would be differential testing, a "
